@@ -25,6 +25,7 @@ RULE = ("lattice x history: solver configuration (Diagonal, DenseQR, DenseLU, De
         "vector, real and complex x (CG) initial guess None/0/exact/perturbed. A point is non-trivial if n>=2 and the "
         "matrix has an off-diagonal entry (or the solver is the diagonal one); distinct by (solver config, family, n, "
         "pattern, storage, table)")
+RULE += " Round 8: CG with explicit restarts every 1..3 (5) iterations; initial guesses far from the solution."
 ASSUMPTIONS = [
     "numpy dense algebra (matmul, linalg.cond/eigvalsh/solve) as the trusted reference kernel",
     "a solver is only given matrices of the class its docstring names (CG: Hermitian positive definite; Cholesky: "
